@@ -207,7 +207,12 @@ def make_wrapper(
                 if attr == self._configurable_name:
                     entry_point = self.changes_count()
                     try:
-                        list(map(self._configurable.remove, vals))
+                        for x in vals:
+                            try:
+                                self._configurable.remove(x)
+                            except KeyError:
+                                # already disabled, and locked that way
+                                pass
                         object.__setattr__(self, "_reuse_pt", self._reuse_pt + 1)
                         return True
                     except Unchangable:
